@@ -34,6 +34,9 @@ class Awaiting:
 
     def __enter__(self):
         if self.deferred.is_awaiting:
+            # While merely trying to compute something ahead of time, a value that
+            # is being computed right now is "not ready yet", not a cycle
+            not_ready()
             raise DeferredCycle()
         self.deferred.is_awaiting = True
         Awaiting.awaiting_stack.append(self.deferred)
